@@ -258,6 +258,7 @@ def cases(ctx):
     # --- NSEC/NSEC3/CSYNC type bitmaps (dns/rdtypes/util.py Bitmap)
     yield from bitmap_cases(ctx)
     yield from rdtype_cases(ctx)
+    yield from b32_cases(ctx)
     # --- the regular record types through the schema model
     yield from schema_cases(ctx)
     # --- whole records (oracle only)
@@ -272,6 +273,7 @@ SCHEMA = {
     48: ("d16 d8 alg b64", ["flags", "protocol", "algorithm", "key"]), 60: ("d16 d8 alg b64", ["flags", "protocol", "algorithm", "key"]),
     257: ("d8 tag q", ["flags", "tag", "value"]),
     47: ("n bm", ["next", "windows"]), 62: ("d32 d16 bm", ["serial", "flags", "windows"]),
+    50: ("d8 d8 d16 hextok b32 bm", ["algorithm", "flags", "iterations", "salt", "next", "windows"]),
     2: ("n", ["target"]), 5: ("n", ["target"]), 12: ("n", ["target"]), 39: ("n", ["target"]), 23: ("n", ["target"]),
     15: ("d16 n", ["preference", "exchange"]), 18: ("d16 n", ["preference", "exchange"]),
     21: ("d16 n", ["preference", "exchange"]), 36: ("d16 n", ["preference", "exchange"]),
@@ -311,6 +313,8 @@ def gen_field(rng, kind):
         return gen_bytes(rng, 80) or b"\0"
     if kind == "bm":
         return [] if rng.random() < 0.08 else windows_of_types({t for t in c05lib.gen_types(rng) if t})
+    if kind == "b32":
+        return bytes(rng.randrange(256) for _ in range(rng.choice([1, 2, 3, 4, 5, 6, 19, 20, 20, 20, 21, 32])))
     if kind == "hextok":
         return gen_bytes(rng, 40)
     if kind == "alg":
@@ -472,6 +476,28 @@ def rdtype_cases(ctx):
         yield "rdtype-from-text", [57, enc(mutate_ascii(rng, rng.choice(names).encode()).decode("latin-1"))]
 
 
+def b32_cases(ctx):
+    rng = ctx.rng
+    import dns.rdtypes.ANY.NSEC3 as _n3  # noqa
+    for _ in range(ctx.n(60, 3000)):
+        d = bytes(rng.randrange(256) for _ in range(rng.choice([0, 1, 2, 3, 4, 5, 6, 9, 10, 20, 21, 33])))
+        yield "b32-encode", [58, d]
+        t = base64.b32encode(d).translate(_n3.b32_normal_to_hex).lower().decode().rstrip("=")
+        yield "b32-decode", [59, enc(t)]
+        yield "b32-decode", [59, enc(t.upper())]
+        m = list(t)
+        for _ in range(rng.randint(1, 2)):
+            r = rng.random()
+            pos = rng.randint(0, len(m))
+            if r < 0.4 and m:
+                del m[min(pos, len(m) - 1)]
+            elif r < 0.8:
+                m.insert(pos, rng.choice("0vwzWZ=a9 -"))
+            elif m:
+                m[min(pos, len(m) - 1)] = rng.choice("wxyz=V0")
+        yield "b32-decode", [59, enc("".join(m))]
+
+
 def bitmap_cases(ctx):
     rng = ctx.rng
     for _ in range(ctx.n(60, 2000)):
@@ -631,6 +657,20 @@ def impl(case):
                 return Err(105, "ValueError")
         if op == 53:
             return dns.ipv6.inet_aton(dec(case[1]))
+        if op == 58:
+            import dns.rdtypes.ANY.NSEC3 as _n3  # noqa (module attribute access only)
+            return enc(base64.b32encode(case[1]).translate(_n3.b32_normal_to_hex).lower().decode().rstrip("="))
+        if op == 59:
+            import dns.rdtypes.ANY.NSEC3 as _n3  # noqa
+            try:
+                nxt = dec(case[1]).encode("ascii").upper().translate(_n3.b32_hex_to_normal)
+                if nxt.endswith(b"="):
+                    raise binascii.Error("Incorrect padding")
+                if len(nxt) % 8 != 0:
+                    nxt += b"=" * (8 - len(nxt) % 8)
+                return base64.b32decode(nxt)
+            except UnicodeEncodeError:
+                return Err(103, "UnicodeEncodeError")
         if op == 56:
             return enc(dns.rdatatype.to_text(case[1]))
         if op == 57:
